@@ -4,6 +4,7 @@ import (
 	"fmt"
 
 	structform "github.com/elastic/go-structform"
+	"github.com/elastic/go-structform/gotype"
 
 	"math"
 	"reflect"
@@ -86,6 +87,71 @@ type Holder struct {
 	L []Inner
 	P *Inner
 	M map[string]Inner
+}
+
+// OrderedKV is unfolded through a user-defined gotype.UnfoldState (Expander)
+// that RETAINS the keys and strings it receives, and folded through Folder.
+type OrderedKV struct {
+	Keys []string
+	Vals []string
+}
+
+func (o OrderedKV) Fold(v structform.ExtVisitor) error {
+	if err := v.OnObjectStart(len(o.Keys), structform.StringType); err != nil {
+		return err
+	}
+	for i, k := range o.Keys {
+		if err := v.OnKey(k); err != nil {
+			return err
+		}
+		if err := v.OnString(o.Vals[i]); err != nil {
+			return err
+		}
+	}
+	return v.OnObjectFinished()
+}
+
+func (o *OrderedKV) Expand() gotype.UnfoldState { return &orderedKVState{to: o} }
+
+type orderedKVState struct {
+	gotype.BaseUnfoldState
+	to *OrderedKV
+}
+
+func (s *orderedKVState) OnObjectStart(ctx gotype.UnfoldCtx, _ int, _ structform.BaseType) error {
+	s.to.Keys, s.to.Vals = nil, nil
+	return nil
+}
+func (s *orderedKVState) OnKey(ctx gotype.UnfoldCtx, key string) error {
+	s.to.Keys = append(s.to.Keys, key) // retained as delivered
+	return nil
+}
+func (s *orderedKVState) OnString(ctx gotype.UnfoldCtx, str string) error {
+	s.to.Vals = append(s.to.Vals, str)
+	return nil
+}
+func (s *orderedKVState) OnNil(ctx gotype.UnfoldCtx) error {
+	s.to.Vals = append(s.to.Vals, "")
+	return nil
+}
+func (s *orderedKVState) OnObjectFinished(ctx gotype.UnfoldCtx) error {
+	ctx.Done()
+	return nil
+}
+
+type WithKV struct {
+	Name string
+	KV   OrderedKV
+	List []OrderedKV
+}
+
+func genOrderedKV(c *simkit.Choices) OrderedKV {
+	var o OrderedKV
+	for i, n := 0, c.Small(5); i < n; i++ {
+		o.Keys = append(o.Keys, GenKey(c, 40))
+		o.Vals = append(o.Vals, genStr(c))
+	}
+	return o
 }
 
 type InlineIfc struct {
@@ -454,6 +520,10 @@ var Catalogue = []TypeEntry{
 			h.P = &i
 		}
 		return h
+	}),
+	mk("OrderedKV", true, genOrderedKV),
+	mk("WithKV", true, func(c *simkit.Choices) WithKV {
+		return WithKV{Name: genStr(c), KV: genOrderedKV(c), List: genSlice(c, genOrderedKV)}
 	}),
 	mk("Wide", true, func(c *simkit.Choices) Wide {
 		return Wide{A: genStr(c), D: genStr(c), H: genStr(c), N1: genI(c), N4: genI(c), Mid: genInner(c), L1: genSlice(c, genStr),
